@@ -406,6 +406,24 @@ pub fn packed_node_size(data: &Vec<u8>, num_children: u8) -> usize {
 	data.len() + num_children as usize * 8 + 1
 }
 
+/// Check that a new tree node and all new nodes below it can be stored.
+pub fn validate_tree_node(node: &NewNode) -> Result<()> {
+	// The number of children is stored in a single byte.
+	if node.children.len() > u8::MAX as usize {
+		return Err(Error::InvalidInput(format!(
+			"Tree node has {} children, at most {} can be stored",
+			node.children.len(),
+			u8::MAX
+		)))
+	}
+	for child in &node.children {
+		if let NodeRef::New(node) = child {
+			validate_tree_node(node)?;
+		}
+	}
+	Ok(())
+}
+
 pub fn unpack_node_data(data: Vec<u8>) -> Result<(Vec<u8>, Children)> {
 	if data.len() == 0 {
 		return Err(Error::InvalidValueData)
